@@ -27,7 +27,7 @@ pub static PROP: PropDef = PropDef {
     run_tape,
     exhaustive: Some(exhaustive),
     run_direct: Some(run_direct),
-    min_classes: &[("header_split", 1000), ("multi_byte_id", 10000), ("decode_rejected", 100), ("decode_accepted", 1000), ("api_refused_datagram", 200), ("api_valid_datagrams_read", 200), ("api_send_checked", 200)],
+    min_classes: &[("header_split", 1000), ("multi_byte_id", 10000), ("decode_rejected", 100), ("decode_accepted", 1000), ("payload_of_several_chunks", 10000), ("api_refused_datagram", 200), ("api_valid_datagrams_read", 200), ("api_send_checked", 200)],
     extra: None,
 };
 
@@ -181,6 +181,56 @@ fn check_encode(k: u64, payload: &[u8], how: &Consume, ctx: &mut Ctx) -> Verdict
             format!("encoded bytes {}.. expected {}.. (quarter stream id {k})", hex(&got[..n]), hex(&want[..n.min(want.len())])),
             case(),
         ));
+    }
+    // the same payload handed over as a buffer of several chunks (a context id chained in front of a packet, say): the wire
+    // image is the same, whichever way the encoded datagram is consumed - in particular through copy_to_bytes, which is
+    // how the quinn adapter flattens it
+    for cuts in crate::tape::cut_sets(payload) {
+        ctx.eval();
+        let case = || json!({"kind": "encode", "k": k, "payload": hex(payload), "consume": format!("{how:?}"), "payload_cuts": cuts});
+        let enc = Datagram::new(sid, crate::tape::Segs::new(payload, &cuts)).encode();
+        if enc.remaining() != want.len() {
+            return Err(Failure::direct(format!("chunked payload: encoded length {} expected {}", enc.remaining(), want.len()), case()));
+        }
+        let total = want.len();
+        let first = (hdr_len + cuts.first().copied().unwrap_or(0)).min(total) / 2 + 1;
+        let flat = catch(move || {
+            let mut enc = enc;
+            let mut out = Vec::new();
+            // in two steps and then the rest: copy_to_bytes(n) must return exactly n bytes
+            for n in [first.min(total), 1usize.min(total - first.min(total))] {
+                let b = enc.copy_to_bytes(n);
+                if b.len() != n {
+                    return Err(format!("copy_to_bytes({n}) returned {} bytes", b.len()));
+                }
+                out.extend_from_slice(&b);
+            }
+            let rest = enc.remaining();
+            let b = enc.copy_to_bytes(rest);
+            if b.len() != rest {
+                return Err(format!("copy_to_bytes({rest}) returned {} bytes", b.len()));
+            }
+            out.extend_from_slice(&b);
+            if enc.has_remaining() {
+                return Err(format!("{} bytes left after everything was copied", enc.remaining()));
+            }
+            Ok(out)
+        })
+        .map_err(|p| Failure::direct(format!("panic while flattening the encoded datagram: {p}"), case()))?
+        .map_err(|e| Failure::direct(format!("chunked payload (cuts {cuts:?}): {e}"), case()))?;
+        if flat != want {
+            return Err(Failure::direct(format!("chunked payload (cuts {cuts:?}) flattened with copy_to_bytes: {} bytes, expected the {} of varint(S/4) || P", flat.len(), want.len()), case()));
+        }
+        let enc2 = Datagram::new(sid, crate::tape::Segs::new(payload, &cuts)).encode();
+        let (mut got2, _) = catch(|| drain(enc2, how)).map_err(|p| Failure::direct(format!("panic while consuming the encoded datagram (chunked payload): {p}"), case()))?.map_err(|e| Failure::direct(e, case()))?;
+        if let Consume::Skips(sk) = how {
+            let n: usize = sk.iter().sum::<usize>().min(want.len()).min(got2.len());
+            got2[..n].copy_from_slice(&want[..n]);
+        }
+        if got2 != want {
+            return Err(Failure::direct(format!("chunked payload (cuts {cuts:?}) consumed as {how:?}: {} bytes, expected {}", got2.len(), want.len()), case()));
+        }
+        ctx.class("payload_of_several_chunks");
     }
     // and back
     match Datagram::decode(Bytes::from(want.clone())) {
